@@ -111,62 +111,195 @@ var c02NondetOK = map[string]string{
 	"contract.Call|time.Now#2": "end of the VM execution-time metric; flows only into vmLogger.Trace",
 }
 
-// c02FlowsOnlyToLog: the value of call is used only inside logging chains,
-// possibly through local variables (followed to depth 3).
+// c02FlowsOnlyToLog: the value of call ends in logger chains only.  The value
+// is followed upwards through value-preserving contexts (parentheses,
+// arithmetic, conversions, methods and functions of package time, effect-free
+// formatting helpers) until it is
+//   - an argument of a logger-chain method of a statement that is a logger
+//     chain (lgr.Trace().Dur("t", time.Since(t0)).Msg("..")): fine;
+//   - stored into a function-local variable: every read of that variable in the
+//     enclosing top-level function — INCLUDING reads inside nested function
+//     literals, e.g. a deferred closure that logs time.Since(t0) — must end the
+//     same way (depth 4);
+//   - anything else (a condition, a return value, an argument of another call,
+//     a field, a global, a composite literal, its address): not only logged.
+// The walk is on the syntax tree of the top-level declaration, so the answer
+// is the same whether f is that declaration or one of its literals.
 func c02FlowsOnlyToLog(f *an.Func, call *ast.CallExpr) bool {
-	g := f.Graph()
-	info := f.Info()
-	var checkNode func(n *an.Node, depth int) bool
-	var checkVar func(o types.Object, from *an.Node, depth int) bool
-	isLogStmt := func(a ast.Node) bool {
-		es, ok := a.(*ast.ExprStmt)
-		if !ok {
-			return false
-		}
-		c, ok := es.X.(*ast.CallExpr)
-		return ok && c02IsLogChain(info, c)
+	top := f.TopDecl()
+	if top == nil || top.Body == nil {
+		return false
 	}
-	checkVar = func(o types.Object, from *an.Node, depth int) bool {
-		if depth > 3 {
-			return false
+	info := f.Info()
+	parent := map[ast.Node]ast.Node{}
+	var stack []ast.Node
+	ast.Inspect(top.Body, func(n ast.Node) bool {
+		if n == nil {
+			stack = stack[:len(stack)-1]
+			return true
 		}
-		for _, n := range g.Nodes {
-			if n.Kind != an.KStmt || n == from || !mentions(info, n.Ast, o) {
-				continue
-			}
-			if !checkNode(n, depth+1) {
+		if len(stack) > 0 {
+			parent[n] = stack[len(stack)-1]
+		}
+		stack = append(stack, n)
+		return true
+	})
+	if parent[call] == nil {
+		return false
+	}
+	isLogPkg := func(fn *types.Func) bool {
+		return fn != nil && fn.Pkg() != nil && (strings.Contains(fn.Pkg().Path(), "zerolog") || strings.Contains(fn.Pkg().Path(), "aergo-lib/log"))
+	}
+	passThrough := func(fn *types.Func) bool {
+		return fn != nil && fn.Pkg() != nil && (fn.Pkg().Path() == "time" || c02GapNeutralCallee(fn))
+	}
+	// inLogChain: x is a call of a logger-chain method; the statement it belongs
+	// to is a logger chain ending in Msg/Msgf/Send.
+	inLogChain := func(x ast.Node) bool {
+		cur := x
+		for {
+			switch p := parent[cur].(type) {
+			case *ast.SelectorExpr:
+				if p.X != cur {
+					return false
+				}
+				cur = p
+			case *ast.CallExpr:
+				if p.Fun != cur || !isLogPkg(an.Callee(info, p)) {
+					return false
+				}
+				cur = p
+			case *ast.ParenExpr:
+				cur = p
+			case *ast.ExprStmt:
+				c, ok := ast.Unparen(p.X).(*ast.CallExpr)
+				return ok && c02IsLogChain(info, c)
+			default:
 				return false
 			}
 		}
-		return true
 	}
-	checkNode = func(n *an.Node, depth int) bool {
-		if isLogStmt(n.Ast) {
+	var okUse func(n ast.Node, depth int) bool
+	okLocal := func(l ast.Expr, depth int) bool {
+		id, ok := ast.Unparen(l).(*ast.Ident)
+		if !ok {
+			return false // stored into a field / element
+		}
+		if id.Name == "_" {
 			return true
 		}
-		switch s := n.Ast.(type) {
-		case *ast.AssignStmt:
-			for _, l := range s.Lhs {
-				o := an.ObjOf(info, l)
-				if o == nil || o.Parent() == nil || o.Parent() == o.Pkg().Scope() {
-					return false // stored into a field / global
-				}
-				if _, isVar := o.(*types.Var); !isVar {
-					return false
-				}
-				if !checkVar(o, n, depth) {
-					return false
+		o := info.Defs[id]
+		if o == nil {
+			o = info.Uses[id]
+		}
+		v, isVar := o.(*types.Var)
+		if !isVar || v.IsField() || v.Pkg() == nil || v.Parent() == nil || v.Parent() == v.Pkg().Scope() {
+			return false // global
+		}
+		good := true
+		ast.Inspect(top.Body, func(m ast.Node) bool {
+			if u, isID := m.(*ast.Ident); isID && u != id && info.Uses[u] == o && good {
+				if !okUse(u, depth+1) {
+					good = false
 				}
 			}
-			return true
+			return good
+		})
+		return good
+	}
+	okUse = func(n ast.Node, depth int) bool {
+		if depth > 4 {
+			return false
 		}
-		return false
+		cur := n
+		for {
+			switch p := parent[cur].(type) {
+			case *ast.ParenExpr:
+				cur = p
+			case *ast.BinaryExpr:
+				cur = p
+			case *ast.UnaryExpr:
+				if p.Op == token.AND || p.Op == token.ARROW {
+					return false
+				}
+				cur = p
+			case *ast.SelectorExpr:
+				if p.X != cur {
+					return false
+				}
+				cur = p // method value / field of the value
+			case *ast.CallExpr:
+				if tv, has := info.Types[p.Fun]; has && tv.IsType() {
+					cur = p // conversion
+					continue
+				}
+				fn := an.Callee(info, p)
+				if p.Fun == cur {
+					// a method called on the value
+					if !passThrough(fn) {
+						return false
+					}
+					cur = p
+					continue
+				}
+				// the value is an argument
+				if isLogPkg(fn) {
+					return inLogChain(p)
+				}
+				if !passThrough(fn) {
+					return false
+				}
+				cur = p
+			case *ast.AssignStmt:
+				for _, l := range p.Lhs {
+					if l == cur {
+						return true // the variable is overwritten here: not a read
+					}
+				}
+				if p.Tok != token.ASSIGN && p.Tok != token.DEFINE {
+					// x += v : flows into x
+					return len(p.Lhs) == 1 && okLocal(p.Lhs[0], depth)
+				}
+				if len(p.Lhs) == len(p.Rhs) {
+					for i, r := range p.Rhs {
+						if r == cur {
+							return okLocal(p.Lhs[i], depth)
+						}
+					}
+					return false
+				}
+				for _, l := range p.Lhs {
+					if !okLocal(l, depth) {
+						return false
+					}
+				}
+				return true
+			case *ast.ValueSpec:
+				for _, nm := range p.Names {
+					if ast.Node(nm) == cur {
+						return true
+					}
+				}
+				if len(p.Names) == len(p.Values) {
+					for i, r := range p.Values {
+						if r == cur {
+							return okLocal(p.Names[i], depth)
+						}
+					}
+					return false
+				}
+				for _, nm := range p.Names {
+					if !okLocal(nm, depth) {
+						return false
+					}
+				}
+				return true
+			default:
+				return false
+			}
+		}
 	}
-	n := g.NodeContaining(call.Pos())
-	if n == nil {
-		return false
-	}
-	return checkNode(n, 0)
+	return okUse(call, 0)
 }
 
 func c02NondetCalls(c *rep.Ctx, fl []*an.Func) {
@@ -195,12 +328,23 @@ func c02NondetCalls(c *rep.Ctx, fl []*an.Func) {
 			if seenKey[key] > 1 {
 				tkey = key + "#" + itoa(seenKey[key])
 			}
-			reason, ok := c02NondetOK[tkey]
+			// The clause is decided by the flow: the value ends in logger chains
+			// only (also through locals read by deferred closures).  A row of the
+			// table documents why a known call is there; it does not replace the
+			// flow check, and a call without a row that is only logged (an added
+			// timing metric) is not a violation — the same decision exec-primitives
+			// (c02_gap.go) takes for the VM callbacks.
+			reason, listed := c02NondetOK[tkey]
 			flowOK := c02FlowsOnlyToLog(f, call)
-			if ok && !flowOK {
+			switch {
+			case flowOK && !listed:
+				reason = "the value ends in logger chains only"
+			case !flowOK && listed:
 				reason += " [the value now flows somewhere other than a logger]"
+			case !flowOK:
+				reason = "the value flows somewhere other than a logger"
 			}
-			c.Check("nondet-call", key, call.Pos(), ok && flowOK, kind+" call reachable from block execution must not influence state, receipts or roots: "+reason)
+			c.Check("nondet-call", key, call.Pos(), flowOK, kind+" call reachable from block execution must not influence state, receipts or roots: "+reason)
 			return true
 		})
 	}
